@@ -29,11 +29,11 @@ def unw(n):
 # ------------------------------------------------------------------ C04 numeric / boolean conversion
 U("setopt_int_concrete", harness="harness/setopt_num.c", entry="h_setopt_int_concrete", func="cfg_setopt",
   defs={"quick": ["-DTOKN=4"], "thorough": ["-DTOKN=6"]}, cbmc={"quick": unw(24), "thorough": unw(24)},
-  label="bounded(|token|<=4 quick, 6 thorough; all bytes; all errno)", props=["C04", "C06", "C10", "C02"],
+  label="bounded(|token|<=4 quick, 6 thorough; all bytes; all errno)", props=["C04", "C06", "C10", "C02", "C05"],
   replay="replay/setopt_scalar.c", cost=20)
 U("setopt_bool_concrete", harness="harness/setopt_num.c", entry="h_setopt_bool_concrete", func="cfg_setopt",
   defs={"quick": ["-DTOKN=5"], "thorough": ["-DTOKN=7"]}, cbmc={"quick": unw(8), "thorough": unw(10)},
-  label="bounded(|token|<=5 quick, 7 thorough; all bytes)", props=["C04", "C06", "C10", "C02"],
+  label="bounded(|token|<=5 quick, 7 thorough; all bytes)", props=["C04", "C06", "C10", "C02", "C05"],
   replay="replay/setopt_scalar.c", cost=10)
 U("parse_boolean", harness="harness/setopt_num.c", entry="h_parse_boolean", func="cfg_parse_boolean",
   defs={"quick": ["-DTOKN=5"], "thorough": ["-DTOKN=7"]}, cbmc={"quick": unw(8), "thorough": unw(10)},
@@ -44,13 +44,13 @@ U("setopt_int_states", harness="harness/setopt_num.c", entry="h_setopt_int_uncon
 U("setopt_float_abstract", harness="harness/setopt_num.c", entry="h_setopt_float_abstract", func="cfg_setopt",
   defs={"quick": ["-DTOKN=4", "-DCFGV_ABSTRACT_NUM", "-DCFGV_NO_REF_STRTOL"], "thorough": ["-DTOKN=8", "-DCFGV_ABSTRACT_NUM", "-DCFGV_NO_REF_STRTOL"]},
   cbmc={"quick": unw(7), "thorough": unw(11)},
-  label="proof over the conversion's ghost facts (token bytes bounded only for strlen: 4 quick, 8 thorough)", props=["C04", "C06", "C10", "C02"],
+  label="proof over the conversion's ghost facts (token bytes bounded only for strlen: 4 quick, 8 thorough)", props=["C04", "C06", "C10", "C02", "C05"],
   trusted=["strtod: assumed contract C11 7.22.1.3 (arbitrary value / end offset / range error; errno written only on range error)"],
   replay="replay/setopt_float.c", cost=10)
 U("setopt_int_abstract", harness="harness/setopt_num.c", entry="h_setopt_int_abstract", func="cfg_setopt",
   defs={"quick": ["-DTOKN=4", "-DCFGV_ABSTRACT_NUM", "-DCFGV_NO_REF_STRTOL"], "thorough": ["-DTOKN=8", "-DCFGV_ABSTRACT_NUM", "-DCFGV_NO_REF_STRTOL"]},
   cbmc={"quick": unw(24), "thorough": unw(24)},
-  label="proof over the conversion's ghost facts (token bytes bounded only for strlen: 4 quick, 8 thorough)", props=["C04", "C06", "C10", "C02"],
+  label="proof over the conversion's ghost facts (token bytes bounded only for strlen: 4 quick, 8 thorough)", props=["C04", "C06", "C10", "C02", "C05"],
   trusted=["strtol: assumed contract C11 7.22.1.4 (arbitrary value / end offset / range error; errno written only on range error)"],
   replay="replay/setopt_int_range.c", cost=10)
 
